@@ -105,14 +105,17 @@ Definition smaps_complete (l : list smap) : bool :=
   forallb (fun p => forallb (fun n => match find_smap p n l with Some _ => true | None => false end) (maps_of p)) all_plats.
 
 (* ------------------------------------------------------------------ slot usage *)
-Definition resolve (maps : list smap) (p : plat) (d : dsrc) : option src :=
+(* the native slot a documented source denotes: an attribute sits where the C layer puts it *)
+Fixpoint index_of (a : string) (l : list string) (i : Z) : option Z :=
+  match l with [] => None | x :: r => if String.eqb x a then Some i else index_of a r (i + 1) end.
+Definition resolve (p : plat) (d : dsrc) : option src :=
   match d with
   | DMap map attr mul =>
-      match find_smap p map maps with
-      | Some m => match assoc attr (m_slots m) with
-                  | Some i => Some (SSlot (map_native p map) i mul)
-                  | None => None
-                  end
+      match native_layout p map with
+      | Some attrs => match index_of attr attrs 0 with
+                      | Some i => Some (SSlot (map_native p map) i mul)
+                      | None => None
+                      end
       | None => None
       end
   | DCall fn i mul => Some (SSlot fn i mul)
@@ -120,32 +123,32 @@ Definition resolve (maps : list smap) (p : plat) (d : dsrc) : option src :=
   | DNone => Some SNone
   end.
 
-Definition field_ok (maps : list smap) (p : plat) (f : string * src) (d : string * dsrc) : bool :=
+Definition field_ok (p : plat) (f : string * src) (d : string * dsrc) : bool :=
   String.eqb (fst f) (fst d) &&
-  match resolve maps p (snd d) with Some s => src_eqb (snd f) s | None => false end.
+  match resolve p (snd d) with Some s => src_eqb (snd f) s | None => false end.
 
-Definition fields_ok (maps : list smap) (u : urow) (d : dlayout) : bool :=
-  shape_eqb (u_shape u) (d_shape d) && forallb2 (field_ok maps (u_plat u)) (u_fields u) (d_fields d).
+Definition fields_ok (u : urow) (d : dlayout) : bool :=
+  shape_eqb (u_shape u) (d_shape d) && forallb2 (field_ok (u_plat u)) (u_fields u) (d_fields d).
 Definition type_ok (u : urow) (d : dlayout) : bool := String.eqb (u_type u) (d_type d).
 
-Definition deps_ok (maps : list smap) (u : urow) : bool :=
+Definition deps_ok (u : urow) : bool :=
   match doc_deps (u_plat u) (u_meth u) with
   | None => true
   | Some ds =>
       if negb (seq (u_variant u) "") then true else
-      forallb (fun ma => match resolve maps (u_plat u) (DMap (fst ma) (snd ma) 1) with
+      forallb (fun ma => match resolve (u_plat u) (DMap (fst ma) (snd ma) 1) with
                          | Some (SSlot fn i _) => existsb (fun d => String.eqb (fst d) fn && (snd d =? i)) (u_deps u)
                          | _ => false
                          end) ds
   end.
 
 (* a probed row meets the documentation (rows of methods without a documented layout: nothing to meet) *)
-Definition row_ok (maps : list smap) (u : urow) : bool :=
+Definition row_ok (u : urow) : bool :=
   match doc_layout (u_plat u) (u_meth u) (u_variant u) with
   | None => true
-  | Some d => fields_ok maps u d && (type_ok u d || known_gids_type (u_plat u) (u_meth u))
+  | Some d => fields_ok u d && (type_ok u d || known_gids_type (u_plat u) (u_meth u))
   end
-  && (deps_ok maps u || known_terminal (u_plat u) (u_meth u)).
+  && (deps_ok u || known_terminal (u_plat u) (u_meth u)).
 
 Fixpoint find_urow (p : plat) (meth variant : string) (l : list urow) : option urow :=
   match l with
